@@ -215,6 +215,40 @@ def rule_nobody_iterates_schema(ctx, rid="R10.3"):
     return r
 
 
+def rule_dispatcher_reads(ctx, rid="R10.13"):
+    """The dispatcher itself consults one member of a schema object by name -- `$ref` -- and the id through the class's id_of
+    (R10.12); every other name reaches it through the table walk only.  A second name it looks up (`$recursiveRef`, `$anchor`,
+    `definitions`) makes a keyword the draft does not know change validation."""
+    prog = ctx.prog
+    calls = calls_of(prog)
+    disp = dispatcher(prog)
+    r = ctx.rule(rid, "by name the dispatcher (and its helpers) reads only `$ref` from a schema object", floor=1)
+    sp = calls.param_with_role(disp, "schema")
+    if sp is None:
+        r.ok(site(disp), "NOT DECIDED: the dispatcher's schema parameter is not identified")
+        r.note(site(disp), "%s not decided" % rid)
+        return r
+    rs = [x for x in reads_on_names(disp, {sp}, "schema", calls) if x.kind in ("get", "getitem", "in", "pop", "setdefault")]
+    id_of_funcs = {d.id_of for d in prog.tables.drafts.values()}
+    bad = 0
+    for x in rs:
+        if x.func in id_of_funcs or x.message_only:
+            continue
+        if x.key == "$ref":
+            r.ok(site(x.func, x.node), "reads `$ref`")
+        elif isinstance(x.key, str):
+            bad += 1
+            r.fail("%s|dispatcher-read|%s" % (x.func.qual, x.key), site(x.func, x.node),
+                   "the dispatcher looks up the member %r of every schema object (%s): a keyword none of the four drafts defines changes validation" % (x.key, norm(x.node)[:50]))
+        else:
+            bad += 1
+            r.fail("%s|dispatcher-read|nonconst|%s" % (x.func.qual, norm(x.node)[:40]), site(x.func, x.node),
+                   "the dispatcher looks up a member of the schema object under a computed name: %s" % norm(x.node)[:60])
+    if not rs:
+        r.ok(site(disp), "no keyed read at all (table walk only)")
+    return r
+
+
 def rule_resolver_id_of(ctx, rid="R10.4b"):
     """The per-validator resolver is built with the class's own id_of."""
     prog = ctx.prog
@@ -255,6 +289,7 @@ def run(ctx):
     rule_read_set(ctx)
     rule_unknown_no_effect(ctx)
     rule_nobody_iterates_schema(ctx)
+    rule_dispatcher_reads(ctx)
     tables.rule_id_key(ctx, "R10.4")
     rule_resolver_id_of(ctx)
     c02.rule_short_circuit(ctx, "R10.5a")
@@ -314,7 +349,10 @@ def rule_fragment_insensitive(ctx, rid="R10.9"):
     base = {"definitions": {"x": {"type": "integer"}, "item": {"type": "null"}}, "a": {"b": 1}, "properties": {"p": {"$id": "#named", "type": "string"}}}
     extras = {"x-unknown": {"$id": "#item", "id": "#item", "definitions": {"x": {"type": "string"}}, "a": {"b": 2}},
               "examples": [{"$id": "#plain"}, {"id": "#plain"}, {"$id": "#/a/b"}], "default": {"$id": "#item", "id": "#named"}, "$comment": "#item",
-              "title": "item", "x-list": [[{"$id": "#deep", "id": "#deep"}]]}
+              "title": "item", "x-list": [[{"$id": "#deep", "id": "#deep"}]],
+              # names later drafts give a meaning to: here they are unknown members like any other
+              "$defs": {"x": {"type": "string"}, "item": {"type": "boolean"}, "other": {}}, "$anchor": "item", "$recursiveAnchor": True, "$dynamicAnchor": "named",
+              "dependentSchemas": {"a": {"$id": "#item"}}, "unevaluatedProperties": {"$id": "#plain"}, "$vocabulary": {"x": True}, "defs": {"x": 1}}
     frags = ["", "/a", "/a/b", "/definitions/x", "/definitions/item", "item", "plain", "named", "deep", "definitions", "a", "x", "/properties/p", "missing"]
     try:
         diffs = []
